@@ -117,6 +117,13 @@ def _prefix_tests(fa: FA, ck=None):
                     if mc is not None:
                         out.append((n, None, mc, at if at is not None else n, n.args[1]))
                         continue
+                    # filter(pred, keys) with pred a lambda held in a local: the test in its body, on each element of `keys`
+                    lam = safe_expand(fa, n.args[0], at if at is not None else n) if isinstance(n.args[0], ast.Name) else None
+                    if isinstance(lam, ast.Lambda) and len(lam.args.args) == 1:
+                        for (t_, s_, p_, _a, _i) in scan(list(ast.walk(lam.body)), at if at is not None else n, A.parent_map(lam)):
+                            if isinstance(s_, ast.Name) and s_.id == lam.args.args[0].arg:
+                                out.append((t_, s_, p_, at if at is not None else n, n.args[1]))
+                        continue
             if hit is not None:
                 out.append((n, hit[0], hit[1], at if at is not None else n, _binder_iter(fa, hit[0], pm)))
         return out
@@ -341,12 +348,40 @@ def _iterates_layer(ck, fa: FA, lp, field, excuse) -> bool:
     return seq(x)
 
 
+def _runs_with_statement(fa: FA, node, excuse) -> bool:
+    """Is `node` evaluated whenever its statement runs -- or skipped only where `excuse` holds?  An operand behind `and` /
+    `or` or an arm of a conditional expression is skipped when the operands before it / the test decide so: each such
+    decision must imply a literal accepted by `excuse`."""
+    if fa.unconditional(node):
+        return True
+    if excuse is None:
+        return False
+    ids = fa.nodes(node)
+    if not ids:
+        return False
+    n = node
+    while n is not None and not isinstance(n, ast.stmt):
+        p_ = fa.pm.get(n)
+        if isinstance(p_, ast.IfExp) and n is not p_.test:
+            if not _implied(fa, p_.test, ids[0], n is not p_.body, excuse):
+                return False
+        elif isinstance(p_, ast.BoolOp) and n in p_.values and n is not p_.values[0]:
+            # skipped when an earlier operand of `and` is false / of `or` is true
+            skip_pol = not isinstance(p_.op, ast.And)
+            if not all(_implied(fa, v, ids[0], skip_pol, excuse) for v in p_.values[:p_.values.index(n)]):
+                return False
+        elif isinstance(p_, (ast.ListComp, ast.SetComp, ast.GeneratorExp, ast.DictComp, ast.Lambda)):
+            return False
+        n = p_
+    return True
+
+
 def _layer_application_nodes(ck, fa: FA, name, field, excuse):
     """CFG nodes that stand for "operation `name` is applied to the layer self.<field>" (when it exists), with the sites
     -> (node ids, [(call, args, keywords)])"""
     nodes, sites = [], []
     for (c, recv, args, kws) in _operation_sites(fa, name):
-        if not fa.unconditional(c):
+        if not _runs_with_statement(fa, c, excuse):
             continue
         if _layer_value(ck, fa, recv, c, field, excuse):
             nodes += fa.nodes(c)
@@ -1354,16 +1389,19 @@ def check_cache_coherence(ck, cm):
     c06.check_replace_on_put(ck, cm, R)
     ck.expected[R] = 3
     # memoize writes through on every non-read-only path, before the store can fail half-way
-    fa = FA(ck, BACKEND_BASE + ".memoize")
-    puts = _field_calls(fa, "_memory_cache", "put")
-    # a path may finish without the put only on a branch edge that says "no cache" or "read-only" (whatever the
-    # nesting, the polarity of the test or a temporary holding the flag)
-    edge_ok = branch_filter(fa, lambda t, p: _no_cache(t, p) or (p and t == "self.read_only"))
-    ok = bool(puts) and fa.cfg.exit not in fa.cfg.reach([fa.cfg.entry], removed=fa.nodes_all(puts), edge_ok=edge_ok)
+    fa = FA(ck, effective_function(ck, ck.fn(BACKEND_BASE + ".memoize")))
+    # the put is applied to the cache by whatever dispatches it (plain call, bound method, methodcaller, a null-object
+    # property, a loop over the layers): a path may finish without it only on a branch edge that says "no cache" or
+    # "read-only" (whatever the nesting, the polarity of the test or a temporary holding the flag)
+    def excuse(t, p):
+        return _no_cache(t, p) or (p and t == "self.read_only")
+    pn, psites = _layer_application_nodes(ck, fa, "put", "_memory_cache", excuse)
+    edge_ok = branch_filter(fa, excuse)
+    ok = bool(pn) and fa.cfg.exit not in fa.cfg.reach([fa.cfg.entry], removed=pn, edge_ok=edge_ok)
     ck.ob(R, fa.key(None, "write-through"), ok, "memoize writes through to the cache on every writable path" if ok else
           "memoize can store without updating the memory cache: a stale cached value outlives the new one", fa.where())
-    for c in puts:
-        b_ = _bind(c, cm.insert.params)
+    for (c, args_, kws_) in psites:
+        b_ = _bind(ast.Call(func=c.func, args=list(args_), keywords=list(kws_)), cm.insert.params)
         hv = b_.get("has_result")
         okv = [_xt(fa, b_.get(x), c) for x in ("memento", "result")] == ["memento", "result"] and hv is not None and _xt(fa, hv, c) == "True"
         ck.ob(R, fa.key(c, "args"), okv, "cache receives (memento, result, has_result=True)" if okv else
